@@ -1289,3 +1289,230 @@ Theorem close_leaves_nothing_deep : forall body owned reason selected lc now nd 
 Proof.
   intros * Hr Hs Hp Hrc. apply close_leaves_nothing; auto. now apply deep_reports_stores.
 Qed.
+
+(* ------------------------------------------------------------------ "every record is referenced from the top" is an invariant *)
+Definition pg_wf_h (h : pg_hstate) : Prop :=
+  match h_origin h with Some d => h_retries h = pg_or (s_retries d) 0 | None => True end.
+
+Lemma pg_prepare_item : forall body owned reason selected now s h,
+  pg_find s (st_items (pg_prepare body owned reason selected now)) = Some h ->
+  (In s owned \/ In s selected) /\ pg_wf_h h /\
+  (forall d x, In s owned -> pg_find s body = Some d -> In x (pg_or (s_subrefs d) []) -> In x (h_subrefs h)).
+Proof.
+  intros * H. rewrite pg_prepare_find in H. unfold pg_wh_spec, pg_base in H.
+  destruct (pg_mem s selected) eqn:Es, (pg_mem s owned) eqn:Eo, (pg_find s body) as [d|] eqn:Eb;
+    cbn [option_map] in H; try discriminate; inversion H as [Hh]; clear H;
+    rewrite ?pg_mem_In in *;
+    (split; [tauto|]); (split; [destruct (_ && _); unfold pg_wf_h; simpl; auto|]);
+    intros d' x Ho' Hd' Hx; try (apply pg_mem_false in Eo; tauto); try discriminate;
+    inversion Hd'; subst d'; destruct (_ && _); simpl; exact Hx.
+Qed.
+
+Lemma pg_changed_with_outcome : forall now h o, pg_wf_h h -> pg_changed (pg_hs_with_outcome now h o) = true.
+Proof.
+  intros now h o W. unfold pg_changed. simpl. unfold pg_wf_h in W. destruct (h_origin h) as [d|]; [|reflexivity].
+  apply negb_true_iff. destruct (pg_srec_eqb _ d) eqn:E; [|reflexivity]. exfalso.
+  apply pg_srec_eqb_eq in E. rewrite <- E in W. simpl in W. lia.
+Qed.
+
+Lemma pg_for_storage_subrefs : forall h s, In s (h_subrefs h) -> In s (pg_or (s_subrefs (pg_for_storage h)) []).
+Proof.
+  intros h s H. unfold pg_for_storage. cbn [s_subrefs]. destruct (h_subrefs h) as [|x l]; [destruct H|].
+  cbn [pg_or]. apply pg_sort_In. exact H.
+Qed.
+
+Lemma pg_find_effects_fold_keep : forall (l : list (pg_hid * pg_srec)) p s,
+  pg_find s p <> None -> pg_find s (fold_left (fun p kr => pg_p_set (fst kr) (PStore (snd kr)) p) l p) <> None.
+Proof.
+  induction l as [|kr l IH]; simpl; intros p s H; [exact H|]. apply IH. rewrite pg_find_p_set.
+  destruct (String.eqb (fst kr) s); [discriminate|exact H].
+Qed.
+
+Lemma pg_find_apply_effects_keep : forall ran p s, pg_find s p <> None -> pg_find s (pg_apply_effects ran p) <> None.
+Proof.
+  unfold pg_apply_effects. induction ran as [|ke ran IH]; simpl; intros p s H; [exact H|].
+  apply IH. now apply pg_find_effects_fold_keep.
+Qed.
+
+Lemma pg_p1_spec : forall body owned (st2 : pg_state) s,
+  pg_find s (if pg_has_extras st2 then pg_purge body st2 owned [] else []) =
+  if pg_has_extras st2 && pg_mem s (pg_purge_ids st2 owned) then pg_purged body s else None.
+Proof.
+  intros. destruct (pg_has_extras st2); [|reflexivity]. unfold pg_purge. rewrite pg_find_purge_fold. simpl.
+  now destruct (pg_mem s (pg_purge_ids st2 owned)).
+Qed.
+
+(* if the supersession purge nulls the record of an owned id, it nulls everything that record references *)
+Lemma pg_p1_purges_refs : forall body owned reason selected now k d s,
+  let st2 := pg_prepare body owned reason selected now in
+  In k owned -> pg_find k body = Some d -> In s (pg_or (s_subrefs d) []) ->
+  pg_find k (if pg_has_extras st2 then pg_purge body st2 owned [] else []) <> None ->
+  pg_find s body <> None ->
+  pg_find s (if pg_has_extras st2 then pg_purge body st2 owned [] else []) <> None.
+Proof.
+  intros * Ho Hb Hs Hk Hsb. rewrite pg_p1_spec in *. destruct (pg_has_extras st2) eqn:Ex; [|now simpl in Hk]. simpl in *.
+  assert (Hitem : exists h, pg_find k (st_items st2) = Some h).
+  { unfold st2. rewrite pg_prepare_find. unfold pg_wh_spec, pg_base. pose proof Ho as Ho'. apply pg_mem_In in Ho'.
+    rewrite Ho', Hb. cbn [option_map]. destruct (pg_mem k selected); cbn [option_map]; eauto. }
+  destruct Hitem as (h & Hf).
+  destruct (pg_prepare_item body owned reason selected now k h Hf) as (_ & _ & Hrefs).
+  assert (Hm : pg_mem s (pg_purge_ids st2 owned) = true).
+  { apply pg_purge_ids_spec. right. right. exists k, h. split; [now apply pg_find_In|]. eapply Hrefs; eauto. }
+  rewrite Hm. unfold pg_purged, pg_has. destruct (pg_find s body); [discriminate|tauto].
+Qed.
+
+Theorem refs_closed_preserved : forall body owned reason selected lc now nd orc,
+  incl selected owned -> pg_reports_stores orc -> pg_stores_apart orc owned ->
+  pg_refs_closed (fun s => pg_find s body) owned ->
+  pg_refs_closed (pg_after body (r_patch (pg_pipeline body owned reason selected lc now nd orc))) owned.
+Proof.
+  intros * Hincl Hrep Hapart Hrc.
+  destruct (pg_handler_reason reason) eqn:Hr.
+  2:{ destruct (pg_pipeline_idle body owned reason selected lc now nd orc Hr) as (_ & Hp & _). cbv zeta in Hp. rewrite Hp.
+      intros s Hs. unfold pg_after in *. simpl in *. exact (Hrc s Hs). }
+  destruct selected as [|s0 sel] eqn:Es.
+  - (* no handler selected: only the supersession purge *)
+    unfold pg_pipeline. rewrite Hr. simpl negb. cbv iota. cbn [r_patch].
+    set (st2 := pg_prepare body owned reason [] now).
+    set (p1 := if pg_has_extras st2 then pg_purge body st2 owned [] else []).
+    assert (NS : pg_no_store p1). { unfold p1. destruct (pg_has_extras st2); [apply pg_no_store_purge|]; apply pg_no_store_nil. }
+    intros s Hs. unfold pg_after in Hs.
+    destruct (pg_find s p1) as [[x|]|] eqn:E1; [exfalso; eapply NS; eauto|tauto|].
+    destruct (Hrc s Hs) as [H|(k & d & Hk & Hkd & Hsd)]; [now left|]. right. exists k, d. split; [exact Hk|]. split; [|exact Hsd].
+    unfold pg_after. destruct (pg_find k p1) as [[x|]|] eqn:Ek; [exfalso; eapply NS; eauto| |exact Hkd].
+    exfalso. assert (Hn : pg_find s p1 <> None).
+    { pose proof (pg_p1_purges_refs body owned reason [] now k d s Hk Hkd Hsd) as HH. cbv zeta in HH. fold st2 in HH.
+      apply HH; [intro X; pose proof (eq_trans (eq_sym X) Ek) as Y; discriminate Y|exact Hs]. }
+    congruence.
+  - rewrite <- Es in *. assert (Hne : selected <> []) by (rewrite Es; discriminate).
+    destruct (pg_pipeline_final body owned reason selected lc now nd orc Hr Hne) as (Ff & Fd & _). cbv zeta in Ff, Fd.
+    destruct (pg_done (r_final (pg_pipeline body owned reason selected lc now nd orc))) eqn:Hd.
+    + (* closing: nothing remains *)
+      intros s Hs. exfalso. apply Hs.
+      apply (close_leaves_nothing body owned reason selected lc now nd orc Hr Hne Hrep Hrc). exact Fd.
+    + rewrite pg_pipeline_patch by assumption. unfold pg_patch_of. rewrite <- Ff, Hd. rewrite Ff.
+      set (st2 := pg_prepare body owned reason selected now).
+      set (st3 := pg_final_of body owned reason selected lc now orc).
+      set (plan := pg_plan lc st2 selected now).
+      set (ran := pg_run orc st2 plan).
+      set (p1 := if pg_has_extras st2 then pg_purge body st2 owned [] else []).
+      assert (NS : pg_no_store p1). { unfold p1. destruct (pg_has_extras st2); [apply pg_no_store_purge|]; apply pg_no_store_nil. }
+      assert (ND : NoDup (map fst (st_items st3))).
+      { unfold st3, pg_final_of. rewrite pg_keys_with_outcomes. apply pg_keys_prepare. }
+      (* the record of an owned id after the call still lists what its state lists *)
+      assert (Hkeep : forall k h x, In k owned -> pg_find k (st_items st3) = Some h -> In x (h_subrefs h) ->
+                 pg_find k (pg_apply_effects ran p1) <> Some PNull ->
+                 (pg_changed h = false -> pg_find k (pg_apply_effects ran p1) = None ->
+                    exists d, pg_find k body = Some d /\ In x (pg_or (s_subrefs d) [])) ->
+                 exists d', pg_after body (pg_store st3 (pg_apply_effects ran p1)) k = Some d' /\ In x (pg_or (s_subrefs d') [])).
+      { intros k h x Hk Hf Hx Hnn Hunch. unfold pg_after. rewrite (pg_find_store _ _ _ ND), Hf.
+        destruct (pg_changed h) eqn:Ec.
+        - eexists. split; [reflexivity|]. now apply pg_for_storage_subrefs.
+        - destruct (pg_find k (pg_apply_effects ran p1)) as [[r'|]|] eqn:Ea; [|congruence|now apply Hunch].
+          exfalso. apply pg_find_apply_effects in Ea. destruct Ea as [Ea|(ke & Hke & Hst)]; [eapply NS; eauto|].
+          unfold ran, pg_run in Hke. apply in_map_iff in Hke. destruct Hke as (c & Ec' & _). subst ke. simpl in Hst.
+          apply Hapart in Hst. tauto. }
+      intros s Hs.
+      destruct (pg_find s (st_items st3)) as [hs|] eqn:E3.
+      { left. unfold st3, pg_final_of in E3. rewrite pg_find_with_outcomes in E3. fold st2 in E3.
+        destruct (pg_find s (st_items st2)) as [h2|] eqn:E2; [|discriminate].
+        destruct (pg_prepare_item body owned reason selected now s h2 E2) as ([H|H] & _); auto. }
+      unfold pg_after in Hs. rewrite (pg_find_store _ _ _ ND), E3 in Hs.
+      destruct (pg_find s (pg_apply_effects ran p1)) as [a|] eqn:Ea.
+      * (* written during an invocation: listed by the invoked handler, whose record is rewritten *)
+        destruct a as [r'|]; [|tauto]. apply pg_find_apply_effects in Ea.
+        destruct Ea as [Ea|(ke & Hke & Hst)]; [exfalso; eapply NS; eauto|].
+        unfold ran, pg_run in Hke. apply in_map_iff in Hke. destruct Hke as (k & Ek & Hk). subst ke. simpl in Hst.
+        apply Hrep in Hst. right.
+        destruct (pg_plan_spec _ _ _ _ _ Hk) as (Hsel & h2 & Hf2 & _). fold st2 in Hf2.
+        destruct (pg_prepare_item body owned reason selected now k h2 Hf2) as (_ & W & _).
+        assert (Hf3 : pg_find k (st_items st3) = Some (pg_hs_with_outcome now h2 (fst (orc k (pg_retries_of st2 k))))).
+        { unfold st3, pg_final_of. fold st2. rewrite pg_find_with_outcomes, Hf2. cbn [option_map]. fold plan.
+          rewrite pg_out_of_run. apply pg_mem_In in Hk. fold plan in Hk. now rewrite Hk. }
+        exists k. eexists. split; [now apply Hincl|]. unfold pg_after. rewrite (pg_find_store _ _ _ ND), Hf3.
+        rewrite (pg_changed_with_outcome _ _ _ W). split; [reflexivity|].
+        apply pg_for_storage_subrefs. apply pg_subrefs_with_outcome. now right.
+      * (* untouched: as before the call *)
+        destruct (Hrc s Hs) as [H|(k & d & Hk & Hkd & Hsd)]; [now left|]. right.
+        destruct (pg_final_keeps_refs body owned reason selected lc now orc k d s Hk Hkd Hsd) as (h & Hf & Hin). fold st3 in Hf.
+        destruct (Hkeep k h s Hk Hf Hin) as (d' & Ha & Hd').
+        { intros Hnull. assert (Hk1 : pg_find k p1 <> None).
+          { apply pg_find_apply_effects in Hnull. destruct Hnull as [Hn|(ke & Hke & Hst)]; [rewrite Hn; discriminate|].
+            exfalso. unfold ran, pg_run in Hke. apply in_map_iff in Hke. destruct Hke as (c & Ec' & _). subst ke. simpl in Hst.
+            apply Hapart in Hst. tauto. }
+          assert (Hs1 : pg_find s p1 <> None).
+          { pose proof (pg_p1_purges_refs body owned reason selected now k d s Hk Hkd Hsd) as HH. cbv zeta in HH. fold st2 in HH.
+            apply HH; [exact Hk1|exact Hs]. }
+          apply (pg_find_apply_effects_keep ran) in Hs1. congruence. }
+        { intros _ _. eauto. }
+        exists k, d'. auto.
+Qed.
+
+(* the nested-handler oracle satisfies the two side conditions *)
+Theorem deep_stores_apart : forall body reason lc now fam leaf tops,
+  pg_pure leaf -> pg_fam_apart fam tops -> forall fuel, pg_stores_apart (pg_deep_oracle fuel body reason lc now fam leaf) tops.
+Proof.
+  intros * Hp Hfa fuel. induction fuel as [|f IH]; intros k n s Hs.
+  - simpl in Hs. rewrite Hp in Hs. destruct Hs.
+  - destruct (fam k) as [[[res so] ss]|] eqn:Hfam.
+    + rewrite (pg_deep_unfold _ _ _ _ _ _ _ _ _ _ _ _ Hfam) in Hs.
+      set (sub := pg_deep_oracle f body reason lc now fam leaf) in *.
+      assert (Hst : In s (map fst (sr_stores (pg_sub_execute body reason so ss lc now sub)))) by (unfold pg_parent_outcome in Hs; exact Hs).
+      clear Hs. unfold pg_sub_execute in Hst. cbn [sr_stores] in Hst. rewrite map_app in Hst. apply in_app_or in Hst.
+      destruct Hst as [Hst|Hst].
+      * apply in_map_iff in Hst. destruct Hst as (kr & E & Hst). apply in_flat_map in Hst. destruct Hst as (ke & Hke & Hkr).
+        unfold pg_run in Hke. apply in_map_iff in Hke. destruct Hke as (c & Ec & _). subst ke. simpl in *.
+        eapply IH. apply in_map_iff. exists kr. eauto.
+      * apply pg_store_list_keys in Hst. rewrite pg_keys_with_outcomes in Hst.
+        apply pg_In_find in Hst. destruct Hst as (h & Hf). rewrite pg_find_with_handlers in Hf. unfold pg_wh_spec in Hf.
+        destruct (pg_mem s ss) eqn:Ess.
+        -- apply pg_mem_In in Ess. eapply Hfa; eauto.
+        -- rewrite pg_find_with_purpose, pg_find_from_storage in Hf. destruct (pg_mem s so) eqn:Eso; [|discriminate].
+           apply pg_mem_In in Eso. eapply Hfa; eauto.
+    + rewrite (pg_deep_leaf (S f) _ _ _ _ _ _ _ _ Hfam) in Hs. rewrite Hp in Hs. destruct Hs.
+Qed.
+
+(* ------------------------------------------------------------------ nesting: witnesses and non-vacuity *)
+Lemma refs_closed_empty : forall tops, pg_refs_closed (fun s => pg_find s (@nil (pg_hid * pg_srec))) tops.
+Proof. intros tops s H. simpl in H. tauto. Qed.
+
+(* the invariant is needed: a sub-handler record nobody references survives the closing *)
+Theorem close_leaves_nothing_refuted :
+  exists body owned reason selected lc now orc,
+    let r := pg_pipeline body owned reason selected lc now true orc in
+    pg_handler_reason reason = true /\ incl selected owned /\ pg_pure orc /\ r_done r = Some true /\
+    exists s, pg_after body (r_patch r) s <> None.
+Proof.
+  exists [("p", w_retry "update"); ("p/c/leaf", w_done "update")], ["p"], PRUpdate, ["p"], LAsap, w_now, (w_orc []).
+  cbv zeta. split; [reflexivity|]. split; [intros k [H|[]]; subst; now left|]. split; [intros k n; reflexivity|].
+  vm_compute. split; [reflexivity|]. exists "p/c/leaf". discriminate.
+Qed.
+
+Definition w_fam3 : pg_hid -> option (option Z * list pg_hid * list pg_hid) :=
+  fun k => if String.eqb k "p" then Some (None, ["p/c"; "p/o"], ["p/c"; "p/o"])
+           else if String.eqb k "p/c" then Some (None, ["p/c/a"; "p/c/b"], ["p/c/a"; "p/c/b"])
+           else if String.eqb k "p/c/b" then Some (None, ["p/c/b/t"], ["p/c/b/t"])
+           else None.
+
+(* three levels below the parent: one call runs them all (all_at_once), closes, and no record of any depth remains;
+   with a retrying twig the parent and every ancestor stay open and the parent's record lists all descendants *)
+Example ex_nested_three_levels :
+  let closed := pg_pipeline [] ["p"] PRCreate ["p"] LAll w_now true (pg_deep_oracle 5 [] PRCreate LAll w_now w_fam3 (w_orc [])) in
+  let open := pg_pipeline [] ["p"] PRCreate ["p"] LAll w_now true (pg_deep_oracle 5 [] PRCreate LAll w_now w_fam3 (w_orc ["p/c/b/t"])) in
+  r_invoked closed = [("p", 0)] /\
+  r_sub closed = [("p/c", 0); ("p/c/a", 0); ("p/c/b", 0); ("p/c/b/t", 0); ("p/o", 0)] /\
+  r_done closed = Some true /\ r_patch closed = [] /\
+  r_done open = Some false /\
+  option_map s_subrefs (pg_after [] (r_patch open) "p") = Some (Some ["p/c"; "p/c/a"; "p/c/b"; "p/c/b/t"; "p/o"]) /\
+  option_map s_subrefs (pg_after [] (r_patch open) "p/c") = Some (Some ["p/c/a"; "p/c/b"; "p/c/b/t"]) /\
+  option_map s_success (pg_after [] (r_patch open) "p/c/a") = Some (Some true) /\
+  option_map s_success (pg_after [] (r_patch open) "p/c/b") = Some (Some false).
+Proof. vm_compute. repeat split. Qed.
+
+Example ex_nested_descendant :
+  pg_desc [] PRCreate LAll w_now w_fam3 (w_orc []) 5 "p" 0 "p/c/b/t".
+Proof.
+  eapply pg_desc_deeper with (c := "p/c") (m := 0); [reflexivity|vm_compute; now left|].
+  eapply pg_desc_deeper with (c := "p/c/b") (m := 0); [reflexivity|vm_compute; right; now left|].
+  eapply pg_desc_child; [reflexivity|vm_compute; now left].
+Qed.
